@@ -362,24 +362,29 @@ def run(ctx):
     f0core = [s for s in f0 if s['layout'] in core_layouts]
     stages = [
         ('P1: n<=3, feature-free projects (every layout x import style); base configuration; every discovery order',
-         make_units(f0, 0, 0, 'all')),
+         lambda: make_units(f0, 0, 0, 'all')),
         ('P2: n<=3, feature-free projects, 8 core layouts; configuration deviations of weight 1 (incl. role/mode '
-         'overrides, no-full-parse = PLAN only); sorted discovery order', make_units(f0core, 1, 1, 'id')),
-        ('P3: n<=3, projects with one feature; base configuration; sorted discovery order', make_units(f1, 0, 0, 'id')),
+         'overrides, no-full-parse = PLAN only); sorted discovery order', lambda: make_units(f0core, 1, 1, 'id')),
+        ('P3: n<=3, projects with one feature; base configuration; sorted discovery order', lambda: make_units(f1, 0, 0, 'id')),
     ]
     if not ctx.quick:
         rest = [s for s in f0 if s['layout'] not in core_layouts]
+        f0p5 = [s for s in f0 if s['layout'] in ('free', 'ownmod', 'mixed')]
         stages += [
             ('P4: n<=3, feature-free projects, remaining layouts; configuration deviations of weight 1; sorted discovery order',
-             make_units(rest, 1, 1, 'id')),
-            ('P5: n<=3, feature-free projects, 8 core layouts; configuration deviations of weight 2; sorted discovery order',
-             make_units(f0core, 2, 2, 'id')),
+             lambda: make_units(rest, 1, 1, 'id')),
+            ('P5: n<=3, feature-free projects, layouts free/ownmod/mixed; configuration deviations of weight 2; sorted discovery order',
+             lambda: make_units(f0p5, 2, 2, 'id')),
         ]
     deadline = br.stage_deadline(ctx)
     total = collections.Counter()
     failures, done_stages, exhaustive = [], [], True
-    for title, units in stages:
-        units = seeded_order(units, ctx.seed)
+    for title, mk in stages:
+        if ctx.elapsed() > deadline:
+            exhaustive = False
+            ctx.note(f'time cap reached before stage: {title}')
+            break
+        units = seeded_order(mk(), ctx.seed)
         results, completed, ndone = br.staged_run(ctx, work, units, deadline)
         st = collections.Counter()
         for r in results:
@@ -392,7 +397,7 @@ def run(ctx):
             exhaustive = False
             ctx.note(f'time cap reached: stage not completed ({ndone}/{len(units)} work units): {title}')
             break
-    ctx.require(total['runs'] > 5000, f'vacuous: only {total["runs"]} probe runs')
+    ctx.require(total['runs'] >= 1000, f'vacuous: only {total["runs"]} probe runs')
     sigs, nb = br.bucket_and_shrink(ctx, failures, shrink_one)
     for sig, case, det in sigs:
         ctx.violation(sig, case, det)
